@@ -212,6 +212,97 @@ def check_output(inp, opts, out):
                 if st.get("duration", 0) != exp:
                     F["C04"].append("stop %s on vehicle %s (multiplier %s) reports duration %s, input gives %s" % (sid, vid, mult, st.get("duration", 0), exp))
             prev = sid
+    # ---- C04: travel duration of every leg recomputed from the duration matrix (plain or time dependent: frames with a
+    # scaling factor or an own matrix, blended across frame boundaries) at the reported departure; arrival = departure + travel
+    dm = inp.get("duration_matrix")
+    if dm is not None and (isinstance(dm, dict) or (isinstance(dm, list) and dm and isinstance(dm[0], list))):
+        from fractions import Fraction as Fr
+        nst, nal = len(inp["stops"]), len(inp.get("alternate_stops", []))
+        sidx = {x["id"]: k for k, x in enumerate(inp["stops"])}
+        aidx = {x["id"]: nst + k for k, x in enumerate(inp.get("alternate_stops", []))}
+        vidx = {v["id"]: k for k, v in enumerate(inp["vehicles"])}
+        default = dm["default_matrix"] if isinstance(dm, dict) else dm
+        frames = []
+        if isinstance(dm, dict):
+            for fr in dm.get("matrix_time_frames") or []:
+                frames.append((ts(fr["start_time"]), ts(fr["end_time"]), fr))
+            frames.sort(key=lambda x: x[0])
+
+        def leg(fr, i, j):
+            if fr is None:
+                return Fr(default[i][j])
+            if fr.get("matrix") is not None:
+                return Fr(fr["matrix"][i][j])
+            return Fr(default[i][j]) * Fr(str(fr.get("scaling_factor", 1.0)))
+
+        def segments():
+            segs, cur = [], 0
+            for a, b, fr in frames:
+                if a > cur:
+                    segs.append((cur, a, None))
+                segs.append((a, b, fr))
+                cur = b
+            segs.append((cur, None, None))
+            return segs
+
+        def travel(dep, i, j):
+            if not frames:
+                return Fr(default[i][j])
+            segs = segments()
+            k = max(x for x in range(len(segs)) if segs[x][0] <= dep)
+            d = leg(segs[k][2], i, j)
+            if d == 0:
+                return Fr(0)
+            if segs[k][1] is None:
+                return d
+            fc = (Fr(segs[k][1]) - dep) / d
+            if fc >= 1:
+                return d
+            acc = fc * d
+            for a, b, fr in segs[k + 1:]:
+                req = (1 - fc) * leg(fr, i, j)
+                if req == 0:
+                    return acc
+                if b is None:
+                    return acc + req
+                can = Fr(b - a) / req
+                if can >= 1:
+                    return acc + req
+                acc += can * req
+                fc += can * (1 - fc)
+            return acc
+
+        def index_of(sid, vid):
+            if sid in sidx:
+                return sidx[sid]
+            if sid in aidx:
+                return aidx[sid]
+            if sid == vid + "-start":
+                return nst + nal + 2 * vidx[vid] if veh_in[vid].get("start_location") else None
+            if sid == vid + "-end":
+                return nst + nal + 2 * vidx[vid] + 1 if veh_in[vid].get("end_location") else None
+            return None
+        for vid, (ids, vo) in routes.items():
+            rt = vo.get("route", [])
+            for a, b in zip(rt, rt[1:]):
+                i, j = index_of(a["stop"]["id"], vid), index_of(b["stop"]["id"], vid)
+                if i is None or j is None:
+                    continue
+                if frames and "end_time" not in a:
+                    continue
+                dep = Fr(ts(a["end_time"])) if "end_time" in a else Fr(0)
+                try:
+                    exp = travel(dep, i, j)
+                except (IndexError, TypeError):
+                    continue
+                got = b.get("travel_duration", 0)
+                # the departure is reported in whole seconds: the true one lies within [dep, dep + 1)
+                lo, hi = min(exp, travel(dep + 1, i, j) if frames else exp), max(exp, travel(dep + 1, i, j) if frames else exp)
+                if not (lo - 2 <= got <= hi + 2):
+                    F["C04"].append("leg %s -> %s on vehicle %s: reported travel duration %s, the matrix gives %s at departure %s"
+                                    % (a["stop"]["id"], b["stop"]["id"], vid, got, float(exp), a.get("end_time")))
+                if "arrival_time" in b and "end_time" in a and abs(ts(b["arrival_time"]) - ts(a["end_time"]) - got) > 2:
+                    F["C04"].append("stop %s on vehicle %s arrives %s, departure %s + travel %s" % (b["stop"]["id"], vid, b["arrival_time"], a["end_time"], got))
     # ---- C05 / C20 objective
     ob = out.get("objective", {})
     terms = {t["name"]: t for t in ob.get("objectives", [])}
@@ -260,11 +351,13 @@ def check_output(inp, opts, out):
         for st in vo.get("route", []):
             sid = st["stop"]["id"]
             src = stops.get(sid) or alts.get(sid)
-            if src is not None and st.get("target_arrival_time") and not st.get("arrival_time"):
+            # the output repeats the target of a stop; for an alternate stop it does not: take it from the input
+            target = st.get("target_arrival_time") or (src or {}).get("target_arrival_time")
+            if src is not None and target and not st.get("arrival_time"):
                 unanchored = True        # vehicle without start_time: no absolute timeline in the output to recompute from
-            if src is None or not st.get("target_arrival_time") or not st.get("arrival_time"):
+            if src is None or not target or not st.get("arrival_time"):
                 continue
-            tgt, arr = ts(st["target_arrival_time"]), ts(st["arrival_time"])
+            tgt, arr = ts(target), ts(st["arrival_time"])
             early, late = max(0, tgt - arr), max(0, arr - tgt)
             # the output reports a duration only for stops that carry the corresponding penalty (factory/format.go)
             if sid in stops:
